@@ -105,9 +105,9 @@ Definition xmm_ok (c : xmm_case) : bool := ok_vec (xc_level c) (xc_before c) (xc
 Record hook_xmm_case := { hx_hook : string; hx_before : list (Z * Z); hx_after : list (Z * Z) }.
 Definition w_ones : world :=
   {| w_regs := fun _ _ => 0; w_mem := fun _ _ => 0; w_zf := fun _ => false; w_glob := fun _ _ => 0;
-     w_xmm := fun _ _ => (18446744073709551615, 18446744073709551615); w_ctx := fun _ _ => 0; w_level := 2 |}.
+     w_xmm := fun _ _ => (18446744073709551615, 18446744073709551615); w_up := fun _ _ _ => 0; w_ctx := fun _ _ => 0; w_level := 2 |}.
 Definition hook_xmm_agrees (c : hook_xmm_case) : bool :=
-  list_eqb pair_eqb (firstn 8 (xlist (c_call_xmm w_ones (hx_hook c) 0 (xof (hx_before c))))) (firstn 8 (hx_after c)).
+  list_eqb pair_eqb (firstn 8 (xlist (c_call_xmm w_ones (hx_hook c) 0 (xof (hx_before c)) (fun _ _ => 0)))) (firstn 8 (hx_after c)).
 Definition hook_xmm_ok (c : hook_xmm_case) : bool := ok_xmm (hx_before c) (hx_after c).
 
 (* finish case: a prefix of a tree's operations, then tracing is told to finish and the function that owns
